@@ -596,6 +596,97 @@ def module_literals(repo: Repo, rel, fn=None):
     return val
 
 
+def _is_literal(e) -> bool:
+    if isinstance(e, ast.Constant):
+        return e.value is None or isinstance(e.value, (int, float, str, bool))
+    if isinstance(e, ast.UnaryOp) and isinstance(e.op, (ast.USub, ast.UAdd)):
+        return isinstance(e.operand, ast.Constant) and isinstance(e.operand.value, (int, float))
+    if isinstance(e, (ast.Tuple, ast.List)):
+        return all(_is_literal(x) for x in e.elts)
+    return False
+
+
+def module_literal_nodes(repo: Repo, rel):
+    """like module_literals, as AST nodes and including tuples / lists of literals (a stencil (-1, 2, -1)); lists only if the module never mutates them
+    (judged by: the name occurs exactly once as a store and never as the base of a subscript store / method call)"""
+    if rel is None or rel not in repo.modules:
+        return {}
+    tree = repo.modules[rel].tree
+    cnt, touched = {}, set()
+    for n in ast.walk(tree):
+        if isinstance(n, ast.Name) and isinstance(n.ctx, (ast.Store, ast.Del)):
+            cnt[n.id] = cnt.get(n.id, 0) + 1
+        elif isinstance(n, (ast.FunctionDef, ast.ClassDef)):
+            cnt[n.name] = cnt.get(n.name, 0) + 1
+        elif isinstance(n, ast.arg):
+            cnt[n.arg] = cnt.get(n.arg, 0) + 1
+        elif isinstance(n, (ast.Global, ast.Nonlocal)):
+            for x in n.names:
+                cnt[x] = cnt.get(x, 0) + 2
+        elif isinstance(n, ast.alias):
+            k = (n.asname or n.name).split(".")[0]
+            cnt[k] = cnt.get(k, 0) + 1
+        if isinstance(n, (ast.Subscript, ast.Attribute)) and isinstance(n.ctx, (ast.Store, ast.Del)) and isinstance(n.value, ast.Name):
+            touched.add(n.value.id)
+        if isinstance(n, ast.Call) and isinstance(n.func, ast.Attribute) and isinstance(n.func.value, ast.Name):
+            touched.add(n.func.value.id)
+    out = {}
+    for st in tree.body:
+        if isinstance(st, ast.Assign) and len(st.targets) == 1 and isinstance(st.targets[0], ast.Name) and _is_literal(st.value) and cnt.get(st.targets[0].id) == 1:
+            if isinstance(st.value, ast.List) and st.targets[0].id in touched:
+                continue
+            out[st.targets[0].id] = st.value
+    return out
+
+
+class LiteralUnroll(ast.NodeTransformer):
+    """module-level literal constants folded, comprehensions over a literal tuple / list unrolled into a list display, and products with a literal
+    coefficient written canonically (1*x -> x, -1*x -> -x, c*x with c < 0 -> -(|c|*x)): `[c*v for c in (-1, 2, -1)]` is `[-v, 2*v, -v]`"""
+
+    def __init__(self, consts):
+        self.consts = consts
+
+    def visit_Name(self, n):
+        if isinstance(n.ctx, ast.Load) and n.id in self.consts:
+            return clone_(self.consts[n.id])
+        return n
+
+    def visit_ListComp(self, n):
+        n = self.generic_visit(n)
+        if len(n.generators) == 1 and not n.generators[0].ifs and isinstance(n.generators[0].target, ast.Name) and isinstance(n.generators[0].iter, (ast.Tuple, ast.List)) \
+                and _is_literal(n.generators[0].iter):
+            k = n.generators[0].target.id
+
+            class _S(ast.NodeTransformer):
+                def __init__(self, v):
+                    self.v = v
+
+                def visit_Name(self, m):
+                    return clone_(self.v) if m.id == k and isinstance(m.ctx, ast.Load) else m
+            elts = [self.visit(_S(v).visit(clone_(n.elt))) for v in n.generators[0].iter.elts]
+            return ast.copy_location(ast.List(elts, ast.Load()), n)
+        return n
+
+    def visit_BinOp(self, n):
+        n = self.generic_visit(n)
+        if isinstance(n.op, ast.Mult):
+            for c, x in ((n.left, n.right), (n.right, n.left)):
+                v = None
+                if isinstance(c, ast.Constant) and isinstance(c.value, (int, float)) and not isinstance(c.value, bool):
+                    v = c.value
+                elif isinstance(c, ast.UnaryOp) and isinstance(c.op, ast.USub) and isinstance(c.operand, ast.Constant) and isinstance(c.operand.value, (int, float)):
+                    v = -c.operand.value
+                if v is None:
+                    continue
+                if v == 1:
+                    return x
+                if v == -1:
+                    return ast.copy_location(ast.UnaryOp(ast.USub(), x), n)
+                if v < 0:
+                    return ast.copy_location(ast.UnaryOp(ast.USub(), ast.BinOp(ast.Constant(-v), ast.Mult(), x)), n)
+        return n
+
+
 def method_effects(repo: Repo, ci, fn, valuation=None, level=1, kc=None, view=None):
     """what a (small) method does on each of its paths, independent of how it is spelled: list of
     {kind: return|fall|raise|unknown|loop, ret: text|None, stores: {"self.x": text}, calls: [text, ...]} with locals replaced by their bindings;
